@@ -80,12 +80,12 @@ def build_jobs(tier, seed, stats, rng):
     thorough = tier == "thorough"
     jobs = []
     for name, max_toks in (("s2", 10), ("s2s", 12), ("s3", 10)):
-        sch, js, docs = c11.shape_universe(name, stats, rng, 60 if not thorough else 1000, max_toks)
+        sch, js, docs = c11.shape_universe(name, stats, rng, 150 if not thorough else 1500, max_toks)
         real = [proj.unproj(sch, d) for d in docs]
         slices = c11.slice_pool(real, rng, 2)
         b = trace.Batch(js)
         for d, rd in zip(docs, real):
-            doc_events(b, sch, rd, d, rng, slices, True, 100, 30 if not thorough else 100)
+            doc_events(b, sch, rd, d, rng, slices, True, 100, 100)
         jobs.append((b, f"G+T helpers[{name}]"))
     for name in schemas.BUNDLED_PLUS:
         sch2, js2, prs = universe.random_docs(name, 15 if not thorough else 200, rng, size=1.3)
